@@ -188,6 +188,54 @@ def settledFrom {α : Type} : Bool → List (Op α) → Bool
 
 def settled {α : Type} (h : List (Op α)) : Bool := settledFrom false h
 
+/-! ### Wave 5: the dependency structure behind cache invalidation
+
+The code empties EVERY memo on every definition change (`Model.reset_cache()` in the setters,
+`add_equation`).  A selective variant keeps the entries of elements the change cannot reach; `sel s n m` says
+whether element `m` is cleared when the definition of `n` changes in state `s`. -/
+
+/-- does the lambda text of an element mention element `j` (as `memoize('j', t)` or `memoize('j', t-dt)`)? -/
+def mentions {α : Type} : Expr α → Nat → Bool
+  | .lit _, _ => false
+  | .ref m, j => m == j
+  | .prev m, j => m == j
+  | .bin _ a b, j => mentions a j || mentions b j
+  | .max0 a, j => mentions a j
+  | .atStart a b, j => mentions a j || mentions b j
+  | .rnd, _ => false
+  | .lookup _ a, j => mentions a j
+
+/-- drop the entries of the elements selected by `S`. -/
+def clearSel {α : Type} (m : Memo α) (S : Nat → Bool) : Memo α := m.filter (fun e => !S e.1.1)
+
+/-- `step` with a selective invalidation policy `sel` for the three kinds of definition change
+(cache resets, evaluations and points writes as in `step`). -/
+def stepSel {α : Type} (sel : St α → Nat → Nat → Bool) (ops : Ops α) (s : St α) : Op α → St α
+  | .setEq n e =>
+      { s with eqn := updFn s.eqn n (some e)
+               body := updFn s.body n (build s.dt (s.kind n) n (s.init n) (some e))
+               memo := clearSel s.memo (sel s n) }
+  | .setInit n e =>
+      { s with init := updFn s.init n e
+               body := updFn s.body n (build s.dt (s.kind n) n e (s.eqn n))
+               memo := clearSel s.memo (sel s n) }
+  | .addEq n e => { s with body := updFn s.body n e, memo := clearSel s.memo (sel s n) }
+  | .reset => { s with memo := [] }
+  | .eval n k fuel => { s with memo := (evalK (ops.withLk s.lk) s.body fuel s.memo (n, k)).1 }
+  | .setPoints p f => { s with lk := updFn s.lk p f }
+
+def runSel {α : Type} (sel : St α → Nat → Nat → Bool) (ops : Ops α) (s : St α) (h : List (Op α)) : St α :=
+  h.foldl (stepSel sel ops) s
+
+/-- the policy of the code: everything. -/
+def selAll {α : Type} : St α → Nat → Nat → Bool := fun _ _ _ => true
+
+/-- a users relation computed by a NAME MATCHER over the function strings: element `m` is found to use `n`
+only if the name of `n` is one the matcher can see (`visible n`; a `\w+` pattern does not see names with a dot,
+a blank or brackets).  One level of users over elements `< bound` (enough for the witness). -/
+def selMatcher {α : Type} (visible : Nat → Bool) : St α → Nat → Nat → Bool :=
+  fun s n m => m == n || (visible n && mentions (s.body m) n)
+
 /-! ### Part (b): the per-equation worker threads of one run
 
 An element's lambda is abstracted to: the list of memo keys it requests, in order (`deps`), and the
